@@ -578,6 +578,10 @@ XProg(v) ==
          [mk(<<[Func("PV", <<"T2", "[]T3">>, "T1", TRUE, TRUE) EXCEPT !.va = TRUE], Func("P2", <<>>, "T2", TRUE, FALSE),
                Func("PS", <<>>, "[]T3", FALSE, FALSE), Func("P9", <<"T1">>, "T9", TRUE, TRUE)>>, <<>>,
              <<[XInj("Inject", <<>>, "T9", <<ItL(1), ItL(2), ItL(3), ItL(4)>>, 1) EXCEPT !.cl = TRUE, !.er = TRUE]>>) EXCEPT !.fam = "R"]
+    [] v = "same-named-sets-two-packages" ->    \* var Set in the injector package includes var Set of another package
+         mk(<<FuncIn("PU1", "b", <<>>, "U1", FALSE, FALSE), XF("P1", <<"U1">>, "T1")>>,
+            <<SetD("Set", "b", <<ItL(1)>>), SetD("Set", "a", <<ItS(1), ItL(2)>>), SetD("Other", "a", <<ItS(1)>>)>>,
+            <<XInj("Inject", <<>>, "T1", <<ItS(2)>>, 1)>>)
     [] v = "same-set-twice-direct" ->          \* one set listed twice in the same call
          mk(<<XF("P2", <<>>, "T2"), XF("P1", <<"T2">>, "T1")>>, <<SetD("SetA", "a", <<ItL(1)>>)>>,
             <<XInj("Inject", <<>>, "T1", <<ItS(1), ItL(2), ItS(1)>>, 1)>>)
@@ -587,6 +591,7 @@ XProg(v) ==
 XVariants == {"star-foreign-tag-missing", "star-foreign-tag-ok", "two-files-first-missing", "two-files-second-missing", "two-files-ok",
               "missing-behind-bind", "missing-behind-bind-2", "bind-iface-not-implementing", "arg-returned-through-bind",
               "arg-returned-directly", "shared-import-bind-lacks-concrete", "multi-name-var-sets", "same-set-twice-direct", "same-set-twice-in-set",
-              "foreign-struct-star", "foreign-struct-unexported-name", "foreign-struct-exported-name", "variadic-err-provider"}
+              "foreign-struct-star", "foreign-struct-unexported-name", "foreign-struct-exported-name", "variadic-err-provider",
+              "same-named-sets-two-packages"}
 FamilyX(p, vs) == \E v \in vs : p = XProg(v)
 =============================================================================
